@@ -185,6 +185,51 @@ def rule_monotone(ctx):
         ctx.sample({"y.secrets := ": sorted({d for _, d in src}), "in": b.root.rsplit("::", 1)[-1]})
 
 
+def rule_distinct_recipients(ctx):
+    """C35.5 — a secret is encrypted to every recipient exactly once: the member list that Dcgka::create hands to
+    send_group_secret is made distinct by a recognised idiom (order-preserving fold that pushes iff the accumulator
+    does not contain the id; a set; sort + dedup).  A member listed twice would get two direct messages, which moves
+    the pairwise ratchet with that member one step further than the member follows (it reads only one of them): the
+    next secret cannot be decrypted by it."""
+    b = ctx.body(D + "create")
+    send = calls_to(b, SEND)
+    if not ctx.ob("C35.5", "send_group_secret in Dcgka::create", len(send) == 1, "%d calls" % len(send), site=b.loc(), trivial=True):
+        return
+    names = deep_calls(b, send[0].args[1])
+    how = None
+    if any(n.endswith("Iterator::fold") for n in names):
+        for c in ctx.prog.children(b):
+            if c.kind != "closure" or c.arg_count != 3:
+                continue
+            try:
+                rows = table(ctx.prog, c, lambda it: [Sym("env"), Sym("acc"), Sym("id")], {})
+            except Exception:
+                continue
+            res = {}
+            for lf in rows:
+                q = [a for k, a in lf.answers.items() if "contains" in k]
+                pushed = any(e[0] == "call" and e[1].endswith("Vec::push") for e in lf.events)
+                if q:
+                    res[bool(q[0])] = pushed
+            if res == {True: False, False: True}:
+                how = "fold that pushes an id iff the accumulator does not contain it"
+    if how is None and any("HashSet" in n or "BTreeSet" in n for n in names):
+        how = "collected into a set"
+    if how is None:
+        calls = sem_calls(b)
+        for dd in calls:
+            if dd.name.rsplit("::", 1)[-1] == "dedup" and any(
+                    ss.name.rsplit("::", 1)[-1].startswith("sort") and b.dominates(ss.bb, dd.bb) for ss in calls):
+                how = "sort + dedup"
+    ctx.ob("C35.5", "the initial members given to send_group_secret are distinct", how is not None,
+           "Dcgka::create hands a member list to send_group_secret that is not made distinct by a recognised idiom (calls on its "
+           "way: %s; note that Vec::dedup alone only removes adjacent repeats): a member listed twice receives two direct messages "
+           "for one secret and its pairwise session with the creator falls out of step" % sorted(n.rsplit("::", 1)[-1] for n in names)[:8],
+           site=send[0].loc(), key="C35.5:distinct-recipients")
+    if how:
+        ctx.sample({"Dcgka::create de-duplication": how})
+
+
 def run(ctx):
     ctx.explanation = (
         "Partial (cut-off clause only). Decides: (1) EncryptionGroup::{create, remove, update}: SecretBundle::generate "
@@ -196,7 +241,7 @@ def run(ctx):
         "stored into GroupState.secrets is the old bundle or SecretBundle::insert/extend applied to it (learned secrets "
         "only grow). NOT decided: that "
         "all current members obtain and can use the latest secret (DCGKA/2SM behaviour over histories).")
-    for r in (rule_rotation, rule_recipients, rule_send, rule_monotone):
+    for r in (rule_rotation, rule_recipients, rule_send, rule_monotone, rule_distinct_recipients):
         ctx.guarded(lambda r=r: r(ctx), "C35")
 
 
